@@ -12,7 +12,11 @@ rsync -a --exclude .git --exclude seed /repo/ "$scratch/repo/"
 (cd "$scratch/repo" && patch -p1 -s < "$seed/patch.diff") || { echo "CONFIRM: patch does not apply"; exit 3; }
 (cd "$scratch/repo" && go build ./... ) || { echo "CONFIRM: does not build"; exit 3; }
 suite() { (cd "$1" && go test -count=1 ./... 2>&1 | grep -E "^(ok|FAIL|---|panic)" | sed -E 's/[0-9.]+s$//' | grep -E "^(ok|FAIL)" | awk '{print $1, $2}' | sort); }
-suite /repo > "$scratch/base.txt"; suite "$scratch/repo" > "$scratch/mut.txt"
+# verdicts of the unchanged tree are cached per /repo state (HEAD + working-tree diff)
+key=$( (git -C /repo rev-parse HEAD; git -C /repo diff) | md5sum | cut -c1-12)
+cache="$(dirname "$0")/../.work/suite-base-$key.txt"
+if [ ! -s "$cache" ]; then suite /repo > "$scratch/base.tmp"; mv "$scratch/base.tmp" "$cache"; fi
+cp "$cache" "$scratch/base.txt"; suite "$scratch/repo" > "$scratch/mut.txt"
 if diff -q "$scratch/base.txt" "$scratch/mut.txt" >/dev/null; then echo "CONFIRM: test suite verdicts identical to the unchanged tree ($(grep -c '^ok' $scratch/mut.txt) packages ok)"; else echo "CONFIRM: TEST SUITE DIFFERS"; diff "$scratch/base.txt" "$scratch/mut.txt"; fi
 rundemo() { # $1 = repo dir
   rm -rf "$scratch/demo"; cp -r "$seed/demo" "$scratch/demo"
